@@ -716,6 +716,9 @@ def run(repo: Repo, rep: Report, tier: str) -> None:
     if not dedups:
         rep.ok("C01-R20", "plan_wire_colors keeps one entry per (source, use) at a sink", "no de-duplication by the source alone", pw20.loc())
 
+    # ---------------- R22 --------------------------------------------------------------
+    _operand_order_into_folders(repo, rep, "C01-R22")
+
     # ---------------- R21 --------------------------------------------------------------
     from .shared import zero_is_a_value as _zero_v
     _zero_v(repo, rep, "C01-R21")
@@ -725,3 +728,34 @@ def run(repo: Repo, rep: Report, tier: str) -> None:
 def ckey20(f, st) -> str:
     from .util import ckey
     return ckey(f, st)
+
+
+def _operand_order_into_folders(repo, rep, rule: str) -> None:
+    """Every call of a two-operand folding helper passes the left operand first: a swapped pair is invisible for + and ==, and wrong for - / % << < > and friends."""
+    from .util import canon as _canon
+
+    rep.rule(rule, "operands keep their sides into the compile-time evaluators: wherever a two-operand folding helper (fold_binary_operation, _fold_arithmetic, "
+             "_fold_comparison, _fold_binary_constant, _compare_constants) is called with values taken from the two sides of an expression, a node or a condition row, "
+             "the first value comes from the left / first side and the second from the right / second side")
+    helpers = ("fold_binary_operation", "_fold_arithmetic", "_fold_comparison", "_compare_constants", "_fold_binary_constant")
+    LEFTS, RIGHTS = (".left", "'left_operand'", "'first_constant'", "'first_"), (".right", "'right_operand'", "'second_constant'", "'second_")
+    n = 0
+    for f in repo.all_funcs():
+        for c in calls_in(f.node):
+            if call_name(c) not in helpers or len(c.args) < 3:
+                continue
+            cc = _canon(f)
+            a, b = cc.text(c.args[1], c), cc.text(c.args[2], c)
+            a_l, a_r = any(k in a for k in LEFTS), any(k in a for k in RIGHTS)
+            b_l, b_r = any(k in b for k in LEFTS), any(k in b for k in RIGHTS)
+            if not (a_l or a_r or b_l or b_r):
+                if isinstance(c.args[1], ast.Name) and isinstance(c.args[2], ast.Name) and c.args[1].id in f.params and c.args[2].id in f.params:
+                    n += 1
+                    ok = f.params.index(c.args[1].id) < f.params.index(c.args[2].id)
+                    rep.check(ok, rule, f"{f.short}: {call_name(c)} receives its own operands in order", f"({c.args[1].id}, {c.args[2].id})", f.loc(c))
+                continue
+            n += 1
+            ok = a_l and not a_r and b_r and not b_l
+            rep.check(ok, rule, f"{f.short}: {call_name(c)} receives (left, right)", f"({a[:50]}, {b[:50]})" if ok else
+                      f"first operand `{a[:70]}`, second `{b[:70]}`: the sides are swapped, `5 - 3` is evaluated as `3 - 5` and `a < b` as `b < a`", f.loc(c))
+    rep.floor(rule, "calls of two-operand folding helpers", n, 8)
